@@ -129,7 +129,7 @@ func finalProbeMutex(m *csync.Mutex) {
 	}
 	// (checked before the probe: the probe's own release would wake a waiter that missed a wake-up)
 	if n := vsched.CountParked("Mutex.Lock") + vsched.CountParked("Locker.Lock"); n > 0 {
-		fail("C02.waiter-stuck", "%d caller(s) parked in Lock although nobody holds the mutex and nothing else can happen", n)
+		fail("waiter-stuck", "%d caller(s) parked in Lock although nobody holds the mutex and nothing else can happen", n)
 		return
 	}
 	rel, ok := m.TryLock()
@@ -146,7 +146,7 @@ func finalProbeRW(m *csync.RWMutex) {
 		return
 	}
 	if n := vsched.CountParked("RWMutex.Lock(write)") + vsched.CountParked("RWMutex.Lock(read)") + vsched.CountParked("Locker.Lock") + vsched.CountParked("RLocker.Lock"); n > 0 {
-		fail("C02.waiter-stuck", "%d caller(s) parked in Lock although nobody holds the RWMutex and nothing else can happen", n)
+		fail("waiter-stuck", "%d caller(s) parked in Lock although nobody holds the RWMutex and nothing else can happen", n)
 		return
 	}
 	rel, ok := m.TryLock(true)
@@ -354,7 +354,7 @@ const (
 func quiescentLockOracle() bool {
 	w, r := vsched.Ctr(cW), vsched.Ctr(cR)
 	if n := vsched.CountParked(lM); n > 0 && w == 0 {
-		fail("C02.waiter-stuck", "%d thread(s) parked in Mutex.Lock while nobody holds the mutex", n)
+		fail("waiter-stuck", "%d thread(s) parked in Mutex.Lock while nobody holds the mutex", n)
 		return false
 	}
 	pw, pr := vsched.CountParked(lRW), vsched.CountParked(lRR)
